@@ -343,7 +343,14 @@ class Extractor:
 
     # ---- statements ----------------------------------------------------------------------------------------------
     def extract(self, fn: ast.AST) -> List[Item]:
-        return self.block(getattr(fn, 'body'), fn)
+        prev_ = getattr(self, '_cur_fn', None)
+        if prev_ is None:
+            self._cur_fn = fn       # type: ignore[attr-defined]
+        try:
+            return self.block(getattr(fn, 'body'), fn)
+        finally:
+            if prev_ is None:
+                self._cur_fn = None       # type: ignore[attr-defined]
 
     def block(self, stmts: Sequence[ast.stmt], fn: ast.AST) -> List[Item]:
         out: List[Item] = []
@@ -418,6 +425,29 @@ class Extractor:
     def names_of(self, t: Optional[ast.AST]) -> Optional[List[str]]:
         if t is None:
             return None
+        if isinstance(t, ast.Name) and getattr(self, '_cur_fn', None) is not None:
+            # the record is bound whole (`for rec in fmt.iter_unpack(data)`) and taken apart later: `(a, b, c) = rec`, possibly in several
+            # arms of tests on the layout - the arm that is live under this configuration names the slots
+            live: List[List[str]] = []
+            for a_ in ast.walk(self._cur_fn):
+                if isinstance(a_, ast.Assign) and len(a_.targets) == 1 and isinstance(a_.targets[0], (ast.Tuple, ast.List)) and isinstance(a_.value, ast.Name) and a_.value.id == t.id \
+                        and not any(isinstance(e_, ast.Starred) for e_ in a_.targets[0].elts):
+                    ok_ = True
+                    ch_: ast.AST = a_
+                    an_ = self.mod.parents.get(ch_)
+                    while an_ is not None and an_ is not self._cur_fn and ok_:
+                        if isinstance(an_, ast.If):
+                            tv = self.ev(an_.test)
+                            if tv is UNKNOWN:
+                                ok_ = False
+                            elif bool(tv) != any(ch_ is b_ for b_ in an_.body):
+                                ok_ = False
+                        ch_, an_ = an_, self.mod.parents.get(an_)
+                    if ok_:
+                        live.append([ast.unparse(e_) for e_ in a_.targets[0].elts])
+            if len(live) == 1:
+                return live[0]
+            return None
         if isinstance(t, (ast.Tuple, ast.List)):
             out = []
             for e in t.elts:
@@ -453,10 +483,12 @@ class Extractor:
             atom = self.call_atom(e, fn, bind)
             # arguments first (nested packs: buf.write(struct.pack(...)))
             skip_first = atom is not None and not isinstance(atom, list)
+            zipped = dotted(e.func) == 'zip' and isinstance(bind, (ast.Tuple, ast.List)) and len(bind.elts) == len(e.args) and not e.keywords
             for i, a in enumerate(e.args):
                 if isinstance(a, ast.Starred):
                     a = a.value
-                out += self.expr_atoms(a, fn)
+                # `for rec, extra in zip(fmt.iter_unpack(data), other)`: each argument is bound to its element of the loop target
+                out += self.expr_atoms(a, fn, bind=bind.elts[i]) if zipped else self.expr_atoms(a, fn)
             for k in e.keywords:
                 out += self.expr_atoms(k.value, fn)
             if isinstance(e.func, ast.Attribute):
